@@ -1,7 +1,8 @@
 (* C13 — HTTP server: reload restarts iff config changed; never silently stale.
    This file contains only statements; every proof is `exact <lemma>`. *)
-From Coq Require Import List NArith ZArith Bool Permutation.
+From Coq Require Import String List NArith ZArith Bool Permutation.
 From GS Require Import LTS HttpCfg HttpServer HttpCfgProofs HttpInv HttpInvStep2 HttpProps HttpProgress HttpMeasure.
+From GS Require Import HttpCtor HttpCfgFieldsPolicy HttpCfgFields.
 Import ListNotations.
 
 (* ---- pure part: Config.Equal (all pairs, no bound on the number of routes or string lengths) ---- *)
@@ -33,6 +34,23 @@ Theorem C13_equal_never_stale : forall (key : list str -> str) new active,
    write_to new = write_to active /\ idle_to new = idle_to active) /\
   (forall x, In x (routes new) <-> In x (routes active)) /\ paths_nodup (routes new) = true.
 Proof. exact config_equal_never_stale. Qed.
+
+(* ---- drift guard: does Equal still look at everything? ----
+   The field lists of the Go structs Config and Route are dumped from the code on every run (reflect,
+   coq/gen/HttpCfgFields.v); every field must be classified in model/HttpCfgFieldsPolicy.v as compared (through a named
+   field of the model's record) or ignored with its reason, and every field of the model's record must be the image of
+   a compared Go field.  A field added to Config without a decision about Equal breaks this theorem. *)
+Theorem C13_equal_fields_covered :
+  fields_covered config_field_policy go_config_fields model_config_fields = true /\
+  fields_covered route_field_policy go_route_fields model_route_fields = true.
+Proof. split; vm_compute; reflexivity. Qed.
+
+(* ... and the model's Equal does compare every field of the model's records (hypothesis: Equal answers true) *)
+Theorem C13_equal_compares_every_model_field : forall (key : list str -> str) a b,
+  config_equal key a b = true ->
+  addr a = addr b /\ drain a = drain b /\ read_to a = read_to b /\ write_to a = write_to b /\ idle_to a = idle_to b /\
+  routes_equal key (routes a) (routes b) = true.
+Proof. exact config_equal_fields. Qed.
 
 (* ---- the two halves composed (audit M9) ----
    [mux_sound mux_ok]: the ServeMux oracle refuses a pattern list with a repeated pattern (registering the same pattern
@@ -205,6 +223,8 @@ Print Assumptions C13_visible.
 Print Assumptions C13_errold_is_unchanged.
 Print Assumptions C13_terminates.
 Print Assumptions C13_served_config_nodup.
+Print Assumptions C13_equal_fields_covered.
+Print Assumptions C13_equal_compares_every_model_field.
 Print Assumptions C13_no_stale_server.
 Print Assumptions C13_measure_decreases.
 Print Assumptions C13_measure_env.
@@ -244,6 +264,13 @@ Example C13_ex_reload_changed :
 Proof. eexists. split; [vm_compute; reflexivity|]. repeat split. Qed.
 Example C13_ex_no_foreign : no_foreign ex_sched.
 Proof. repeat constructor. Qed.
+
+(* the drift guard does reject: a Config with one more field (the flag of seeded change C19-3) is not covered *)
+Example C13_ex_new_field_breaks :
+  fields_covered config_field_policy (go_config_fields ++ [("routesChecked"%string, "bool"%string)]) model_config_fields = false.
+Proof. vm_compute. reflexivity. Qed.
+Example C13_ex_equal_true : config_equal go_names_key (ex_cfg [ex_r1; ex_r2]) (ex_cfg [ex_r2; ex_r1]) = true.
+Proof. vm_compute. reflexivity. Qed.
 
 (* C13_no_stale_server and C13_served_config_nodup: all hypotheses at once (a sound oracle, a foreign-binder-free schedule
    reaching a Reload about to receive its callback's result, a permuted - hence "unchanged" - configuration) *)
